@@ -44,7 +44,7 @@ func corpusList(r *mon.Run, stream string, nSampleQuick, nGenQuick, nGenThorough
 		}
 	}
 	vend := a2j.ListGoFiles(vendoredCorpus)
-	repo := a2j.ListGoFiles("/repo")
+	repo := a2j.ListGoFiles(repoDir())
 	goroot := a2j.ListGoFiles(oracle.GorootSrc())
 	r.Put("corpus.vendored_files", len(vend))
 	r.Put("corpus.repo_files", len(repo))
